@@ -39,7 +39,7 @@ func (c *validatorListConstructor) buildList(node schema.Node) {
 		c.appendTypeValidators(names)
 
 		if constr := node.Constraint(constraint.NullableConstraintType); constr != nil {
-			c.list = append(c.list, newLiteralValidator(node, c.parent))
+			c.list = append(c.list, newNullValidator(node, c.parent))
 		}
 	} else {
 		c.appendNodeValidators(node)
@@ -86,6 +86,6 @@ func (c *validatorListConstructor) appendNodeValidators(node schema.Node) {
 	}
 	if _, ok := node.(schema.BranchNode); ok && node.Constraint(constraint.NullableConstraintType) != nil {
 		// A nullable array or object also admits the literal null.
-		c.list = append(c.list, newLiteralValidator(node, c.parent))
+		c.list = append(c.list, newNullValidator(node, c.parent))
 	}
 }
